@@ -205,9 +205,174 @@ def run(ctx, prog):
     A.require('pack/closure-replaces-only-self-references', paths, r_pack_closure, replay=REPLAY)
 
 
+def maps(ctx):
+    """The rewriting primitives under pack / into_iota_document: DIDUrl / VerificationMethod / MethodRef / Service ::map and
+    ::try_map apply the caller's function to every DID component (id *and* controller) and pass every other field through;
+    CoreDocumentData::try_map feeds each of its ten fields through the right one."""
+    prog, info = load(['identity_did', 'identity_verification', 'identity_document'], src_only=['identity_core'])
+    ctx.extra['mir_maps'] = info
+    A = Auditor(ctx, prog)
+    S = prog.structs
+    RB = {'scenario': 'state_metadata', 'cex': {'only': '[rebase]'}}
+
+    def fcall(t, arg_pred):
+        """t (stripped of .Ok.0) is an application of the caller-supplied function to a value satisfying arg_pred"""
+        t = strip(t)
+        if isinstance(t, tuple) and t and t[0] == 'field' and t[3] == 'Ok':
+            t = strip(t[1])
+        if not (isinstance(t, tuple) and t and t[0] == 'app' and re.search(r'as Fn(Once|Mut)?<\(.*CoreDID,\)>>::call(_once|_mut)?$', t[1])):
+            return False
+        return any(arg_pred(strip(x)) for a in t[2] for x in subterms(a))
+
+    def app_of(t, rx, arg):
+        t = strip(t)
+        if isinstance(t, tuple) and t and t[0] == 'field' and t[3] == 'Ok':
+            t = strip(t[1])
+        return isinstance(t, tuple) and t and t[0] == 'app' and re.search(rx, t[1]) and strip(t[2][0]) == arg
+
+    def self_f(i):
+        return ('field', ('leaf', 'self'), i, '')
+
+    def result_struct(p, fallible):
+        v = p.val
+        if fallible:
+            if not (isinstance(v, VAgg) and v.variant == 'Ok'):
+                return None
+            v = v.fields[0]
+        return v if isinstance(v, VAgg) else None
+
+    # DIDUrl
+    DU = S['DIDUrl']
+    for nm, fallible in (('map', False), ('try_map', True)):
+        f = prog.one(r'did_url::<impl at [^>]*>::%s$' % nm, sig=r'^(\w+::)*DIDUrl')
+        paths, ex = A.paths(f)
+
+        def r_du(p, fallible=fallible):
+            if p.kind != 'return':
+                return 'panic ' + p.msg
+            v = result_struct(p, fallible)
+            if v is None:
+                return None
+            did, url = p.term(v.fields[DU.index('did')]), strip(p.term(v.fields[DU.index('url')]))
+            if not fcall(did, lambda x: x == self_f(DU.index('did'))):
+                return 'DID part is not f(self.did)'
+            return None if url == self_f(DU.index('url')) else 'relative part altered'
+        A.require('DIDUrl::%s/did-mapped-url-untouched' % nm, paths, r_du, replay=RB)
+
+    # VerificationMethod
+    VM = S['VerificationMethod']
+    for nm, fallible in (('map', False), ('try_map', True)):
+        f = prog.one(r'(^|::)method::<impl at [^>]*method.rs[^>]*>::%s$' % nm)
+        paths, ex = A.paths(f)
+
+        def r_vm(p, nm=nm, fallible=fallible):
+            if p.kind != 'return':
+                return 'panic ' + p.msg
+            v = result_struct(p, fallible)
+            if v is None:
+                return None
+            if not app_of(p.term(v.fields[VM.index('id')]), r'DIDUrl::%s$' % nm, self_f(VM.index('id'))):
+                return 'method id is not self.id.%s(f)' % nm
+            if not fcall(p.term(v.fields[VM.index('controller')]), lambda x: x == self_f(VM.index('controller'))):
+                return 'controller is not f(self.controller)'
+            for fld in VM:
+                if fld not in ('id', 'controller') and strip(p.term(v.fields[VM.index(fld)])) != self_f(VM.index(fld)):
+                    return 'field %s altered' % fld
+            return None
+        A.require('VerificationMethod::%s/id-and-controller-mapped-rest-untouched' % nm, paths, r_vm, replay=RB)
+
+    # MethodRef
+    for nm, fallible in (('map', False), ('try_map', True)):
+        f = prog.one(r'method_ref::<impl at [^>]*>::%s$' % nm)
+        paths, ex = A.paths(f)
+
+        def r_mr(p, nm=nm, fallible=fallible):
+            if p.kind != 'return':
+                return 'panic ' + p.msg
+            v = result_struct(p, fallible)
+            if v is None:
+                return None
+            d = ex.discr_var(('leaf', 'self'))
+            src = None
+            for vn, vi in prog.enums['MethodRef'].items():
+                if p.implies(d == z3.BitVecVal(vi, 64)):
+                    src = vn
+            if src is None or str(v.variant) != src:
+                return 'variant changes from %s to %s' % (src, v.variant)
+            inner = ('field', ('leaf', 'self'), 0, src)
+            callee = r'VerificationMethod::%s$' % nm if src == 'Embed' else r'DIDUrl::%s$' % nm
+            return None if app_of(p.term(v.fields[0]), callee, inner) else '%s payload is not payload.%s(f)' % (src, nm)
+        A.require('MethodRef::%s/variant-kept-payload-mapped' % nm, paths, r_mr, replay=RB)
+
+    # Service
+    SV = S['Service']
+    for nm, fallible in (('map', False), ('try_map', True)):
+        f = prog.one(r'service::service::<impl at [^>]*>::%s$|service::<impl at [^>]*>::%s$' % (nm, nm), sig=r'^(\w+::)*Service')
+        paths, ex = A.paths(f)
+
+        def r_sv(p, nm=nm, fallible=fallible):
+            if p.kind != 'return':
+                return 'panic ' + p.msg
+            v = result_struct(p, fallible)
+            if v is None:
+                return None
+            if not app_of(p.term(v.fields[SV.index('id')]), r'DIDUrl::%s$' % nm, self_f(SV.index('id'))):
+                return 'service id is not self.id.%s(f)' % nm
+            for fld in SV:
+                if fld != 'id' and strip(p.term(v.fields[SV.index(fld)])) != self_f(SV.index(fld)):
+                    return 'field %s altered' % fld
+            return None
+        A.require('Service::%s/id-mapped-rest-untouched' % nm, paths, r_sv, replay=RB)
+
+    # CoreDocumentData::try_map
+    CD = S['CoreDocumentData']
+    f = prog.one(r'core_document::<impl at [^>]*>::try_map$', sig=r'^(\w+::)*CoreDocumentData')
+    paths, ex = A.paths(f)
+    via = {'verification_method': ('method_map', r'VerificationMethod::try_map$'), 'service': ('services_map', r'Service::try_map$')}
+    for r_ in ('authentication', 'assertion_method', 'key_agreement', 'capability_delegation', 'capability_invocation'):
+        via[r_] = ('method_map', r'MethodRef::try_map$')
+
+    def closure_calls(cname, rx):
+        cands = prog.closures.get(cname) or []
+        if len(cands) != 1:
+            return False
+        body = ' '.join(str(b.term) for b in cands[0].blocks.values() if b.term)
+        return bool(re.search(rx.rstrip('$'), body))
+
+    def r_cd(p):
+        if p.kind != 'return':
+            return 'panic ' + p.msg
+        v = result_struct(p, True)
+        if v is None:
+            return None
+        if not fcall(p.term(v.fields[CD.index('id')]), lambda x: x == self_f(CD.index('id'))):
+            return 'document id is not id_map(self.id)'
+        c = v.fields[CD.index('controller')]
+        if isinstance(c, VAgg) and c.variant == 'Some':
+            ct = strip(p.term(c.fields[0]))
+            if not (apps(ct, r'OneOrSet::try_map$') and mentions(ct, r'^controller_map$') and mentions(ct, r'^self$')):
+                return 'controllers not mapped with controller_map'
+        for fld in ('also_known_as', 'properties'):
+            if strip(p.term(v.fields[CD.index(fld)])) != self_f(CD.index(fld)):
+                return 'field %s altered' % fld
+        for fld, (mp, callee) in via.items():
+            t = p.term(v.fields[CD.index(fld)])
+            ii = [a for a in apps(t, r'IntoIterator>::into_iter$') if strip(a[2][0]) == self_f(CD.index(fld))]
+            cl = [x for x in subterms(t) if isinstance(x, tuple) and x and x[0] == 'fn' and str(x[1]).startswith('{closure@')]
+            if not ii or len(cl) != 1:
+                return 'field %s is not rebuilt from its own entries' % fld
+            if not mentions(cl[0], '^%s$' % mp):
+                return 'entries of %s mapped with the wrong function (want %s)' % (fld, mp)
+            if not closure_calls(cl[0][1], callee):
+                return 'entries of %s not passed through %s' % (fld, callee)
+        return None
+    A.require('CoreDocumentData::try_map/each-field-through-its-own-map', paths, r_cd, replay=RB)
+
+
 def main(ctx):
     prog, info = load(CRATES)
     ctx.extra['mir'] = info
     ctx.outside += ['JSON body round trip (serde)', 'CoreDocument::try_map / map_unchecked applying the closures to the right fields (identity_document, iterator code)',
                     'document shapes, metadata contents']
     guarded(ctx, 'state metadata framing and rebasing', 'M', lambda: run(ctx, prog))
+    guarded(ctx, 'rewriting primitives (map / try_map)', 'M', lambda: maps(ctx))
